@@ -71,8 +71,23 @@ class Ctx:
              "seed": self.seed, "shard": self.shard, "tier": self.tier}
         if len(self.violations) < 50:
             self.violations.append(w)
+            self.flush_partial()  # a later hang or crash of the shard must not lose what was already observed
         else:
             self.count("violations_beyond_cap")
+
+    def flush_partial(self):
+        path = getattr(self, "partial_path", None)
+        if not path:
+            return
+        try:
+            out = self.result()
+            out.update({"ok": False, "partial": True, "error": "shard did not finish (partial result flushed when a violation was recorded)"})
+            tmp = path + ".tmp"
+            with open(tmp, "w") as f:
+                json.dump(out, f, default=str)
+            os.replace(tmp, path)
+        except Exception:
+            pass
 
     def mine(self, k):
         """Static sharding of an enumerated space."""
